@@ -9,8 +9,16 @@ open Genshi Genshi.Path
 
 /-- the node tests SimplePathStrategy supports -/
 def simpleT : NodeTest → Bool
-  | .localName _ _ | .comment | .text => true
+  | .localName false _ | .comment | .text => true
   | _ => false
+
+theorem simpleT_cases (t : NodeTest) (h : simpleT t = true) :
+    (∃ n, t = .localName false n) ∨ t = .comment ∨ t = .text := by
+  cases t with
+  | localName b n => cases b <;> simp_all [simpleT]
+  | comment => exact Or.inr (Or.inl rfl)
+  | text => exact Or.inr (Or.inr rfl)
+  | _ => simp [simpleT] at h
 
 theorem nodesEqual_refl (t : NodeTest) (h : simpleT t = true) : nodesEqual t t = true := by
   cases t <;> simp_all [simpleT, nodesEqual]
